@@ -258,6 +258,8 @@ class Campaign:
         if any(exc is None for _, exc in o.get("refusals", [])):
             ctx.notes.append("a registration expected to be refused was accepted: %r" % ([r for r, x in o["refusals"] if x is None][:1],))
             return
+        if getattr(o["rec"], "order_issue", None) and self.facet in ("C09",):
+            ctx.violation("C09:cache-ordering-contradicts-the-layout", "the block ordering the caches start with is not the physical one: %s" % o["rec"].order_issue, case)
         if o["edits"] is None and o.get("refusals") and len(o["rec"].records) > len(case.get("edits", [])):
             # more insert/delete calls than accepted requests: a registration that was refused is carried out anyway
             ctx.count("refused-request-carried-out")
